@@ -451,6 +451,14 @@ compute_image_info (pixman_image_t *image)
 	{
 	    code = PIXMAN_solid;
 	}
+	else if (image->bits.width <= 0 || image->bits.height <= 0)
+	{
+	    /* No pixels: keep the image away from every format-specific
+	     * fast path and fetcher (they assume at least one pixel); the
+	     * bounds-checked general fetchers make it transparent.
+	     */
+	    code = PIXMAN_unknown;
+	}
 	else
 	{
 	    code = image->bits.format;
